@@ -1,6 +1,6 @@
 """C10 — sorting reader, merge reader, reducing merge over scripted upstreams at every spill/canary/batch size."""
 PID = "C10"
-EXTRA_TARGETS = ("BS.Properties.C10m",)
+EXTRA_TARGETS = ("BS.Properties.C10m", "BS.Properties.C10e")
 CASE_LIMIT = {"C10": 90}   # seconds: these cases are function calls, not sessions
 RULE = ("int64 keys and (a fifth of the cases again) int16/uint16/int32/uint32/int/uint64/uint/string/int8/uint8 keys; sort: inputs of 0..60 rows (keys 0..9, many equal), canary 1..8, spill target 1..400 bytes, spill batch 1..8, "
         "upstream scripts with zero-row reads and both EOF placements, injected read errors; merge: 0..5 sorted streams "
